@@ -1,7 +1,14 @@
-/* C03.dir.header_matches: sqfs_dir_writer_end + add_header +
- * get_conseq_entry_count (lib/sqfs/src/dir_writer.c) on an entry list of
- * NENT nodes (-DNENT, concrete shape; every field value symbolic, name
- * lengths 1..4, arbitrary name bytes, arbitrary writer position). The meta
+/* C03.dir.header_matches: sqfs_dir_writer_end + add_header
+ * (lib/sqfs/src/dir_writer.c) on an entry list of NENT nodes split into runs
+ * of R0, R1, R2 entries (-D, concrete shape: all 7 compositions of 1..3
+ * entries are enumerated; every field value symbolic, name lengths 1..4,
+ * arbitrary name bytes, arbitrary writer position).
+ * get_conseq_entry_count is replaced (goto-instrument --replace-calls) by its
+ * contract, proved in dir_run.c: it is called with the current block offset
+ * and the first entry not yet written and returns the run length; the
+ * entries of one run share the inode block and have deltas within +-32767
+ * (assumed on the list here, guaranteed there). With the real function left
+ * in, the run structure is symbolic and neither symex nor SAT finish. The meta
  * writer is its contract: the appended bytes are captured (<= 64 bytes) and
  * the position advances, crossing into a new block at 8192. The captured
  * listing is then decoded by an independent reader written from
@@ -29,9 +36,15 @@
 struct sqfs_meta_writer_t { sqfs_object_t base; int opaque; };
 #include "lib/sqfs/src/dir_writer.c"
 
-#ifndef NENT
-#define NENT 2
+#ifndef R0
+#define R0 1
+#define R1 1
+#define R2 0
 #endif
+#define NENT (R0 + R1 + R2)
+static const size_t g_runs[4] = { R0, R1, R2, 0 };
+static unsigned g_run_calls;
+static size_t g_ents_done;
 #define NAMEMAX 4
 #define CAP 64
 
@@ -82,6 +95,18 @@ void sqfs_meta_writer_get_position(const sqfs_meta_writer_t *m,
 	*offset = (sqfs_u32)g_off;
 }
 
+size_t stub_conseq(sqfs_u32 offset, sqfs_dir_entry_t *head)
+{
+	size_t c;
+
+	VERIF_ASSERT(g_run_calls < 3 && g_ents_done < NENT &&
+		     head == &g_nodes[g_ents_done]->e && offset == g_off,
+		     "C03.dir.header_matches.run_query");
+	c = g_runs[g_run_calls++];
+	g_ents_done += c;
+	return c;
+}
+
 void *calloc(size_t n, size_t sz)
 {
 	VERIF_ASSERT(n == 1 && sz == sizeof(index_ent_t), "C03.dir.env.calloc_pre");
@@ -127,6 +152,20 @@ void harness(void)
 		VERIF_ASSUME(n->e.name_len >= 1 && n->e.name_len <= NAMEMAX);
 		for (k = 0; k < NAMEMAX; ++k)
 			n->name[k] = (char)verif_nd_u8("name");
+	}
+	/* contract of get_conseq_entry_count (dir_run.c) for each run */
+	for (i = 0, k = 0; k < 3; ++k) {
+		size_t first = i, j;
+		for (j = 0; j < 3; ++j) {
+			if (j < g_runs[k]) {
+				sqfs_u32 d = g_nodes[i]->e.inode_num -
+					g_nodes[first]->e.inode_num;
+				VERIF_ASSUME((g_nodes[i]->e.inode_ref >> 16) ==
+					     (g_nodes[first]->e.inode_ref >> 16));
+				VERIF_ASSUME(d <= 32767 || d >= 0xFFFF8001u);
+				i += 1;
+			}
+		}
 	}
 	g_w.base.refcount = 1;
 	g_w.dm = &g_dm;
@@ -193,9 +232,11 @@ void harness(void)
 	VERIF_ASSERT(ok && left == 0 && pos == g_cap_n && ent == NENT &&
 		     ix == NULL, "C03.dir.header_matches.decodes");
 	VERIF_ASSERT(names, "C03.dir.header_matches.entries");
-	VERIF_COVER(run == 1);
-#if NENT > 1
-	VERIF_COVER(run == NENT);
-	VERIF_COVER(run == 1 && g_blk != blk0);
+	VERIF_ASSERT(run == g_run_calls && g_ents_done == NENT,
+		     "C03.dir.header_matches.decodes");
+	VERIF_COVER(g_blk != blk0);
+	VERIF_COVER(g_blk == blk0 && n0.e.name_len == NAMEMAX);
+#if R0 > 1
+	VERIF_COVER(n1.e.inode_num < n0.e.inode_num);
 #endif
 }
